@@ -15,6 +15,7 @@ EXPLANATION = (
     '(R6) a fresh page is registered as free with exactly the size requested from the system allocator, and released with the layout it was requested with. '
     "(R7) single owner: no function of des-cqueue makes a bitwise copy (ptr::read / copy / transmute_copy / ManuallyDrop::take ..) of a value "
     "that is not plain data unless the copied-from owner is forgotten on every path — a second owner drops the payload a second time. "
+    "(R8, shared with C01.R3) cancel searches the container add placed the event in for every ordering of (event time, bound at add, bound at cancel): a cancelled payload is dropped at cancel, not handed out later. "
     "Decides these necessary conditions only; not non-overlap / reuse-after-release over histories.")
 ASSUMPTIONS = ["the global allocator returns page_size-aligned pages", "raw-pointer aliasing is as the SAFETY comments state"]
 
@@ -679,3 +680,8 @@ def run(ctx):
     r4_node_typestate(ctx)
     r5_drain_before_allocator(ctx)
     r7_single_owner(ctx)
+    # (R8, shared with C01.R3) a cancelled payload is dropped at cancel — which it is only if cancel searches the container add placed
+    # the event in, for every weak ordering of (event time, bound at add, bound at cancel); an event cancel does not find keeps its
+    # payload alive and hands it out later
+    from .C01 import r3_container_agreement
+    r3_container_agreement(ctx, rule='C15.R8')
